@@ -257,6 +257,9 @@ LIB: Dict[str, Callable[[List[Kinds]], Set[str]]] = {
 # methods on library objects / known-kind receivers: name -> effects
 LIB_METHODS: Dict[str, Callable[[List[Kinds]], Set[str]]] = {
     "astimezone": const("OverflowError"),  # year 1 / 9999 +- offset
+    # copy.deepcopy / copy.copy rebuild an object through __reduce_ex__, i.e. cls(*pickle state): TimestampType and
+    # DurationType override __new__ with another signature, so copying one (alone or inside a list / map) raises
+    "deepcopy": const("TypeError"),
     "timestamp": const(),  # aware datetime: arithmetic on timedelta, no OS call
     "total_seconds": const(),
     "toordinal": const(),
